@@ -40,11 +40,11 @@ def check(chk: Check) -> None:
     R1 = chk.rule('C07.R1', 'every opcode has a handler and siblings agree: each operator string the grammar can store in a '
                             'node (or pass to the compound-index helper) reaches a handler that applies the Python operator of '
                             'the same kind to (left, right) in that order; the two compound-assignment implementations map '
-                            'each operator text to the same in-place operator', floor=25)
+                            'each operator text to the same in-place operator', floor=15)
     R2 = chk.rule('C07.R2', 'lowering targets exist with the right arity: every constant function name a template emits is in '
-                            'the function table and accepts the number of arguments passed', floor=8)
+                            'the function table and accepts the number of arguments passed', floor=4)
     R3 = chk.rule('C07.R3', 'one charge per node evaluation (= C01.R1 + C01.R3): exactly one +1 increment per eval invocation, '
-                            'so the op count equals the number of node evaluations', floor=13)
+                            'so the op count equals the number of node evaluations', floor=8)
     chk.decided += ['ONLY the structural sub-clauses: opcode exhaustiveness and operator kinds (R1), lowering arity (R2), one charge per node (R3)']
     chk.not_decided += ['the extensional statement - values of operators and builtins on all well-typed programs (negative/fractional indices, '
                         'mixed str + number, slices with steps, nested containers, ...) - needs an executable reference semantics and generated '
